@@ -558,6 +558,7 @@ func (state *RuntimeState) internalTOTPAuthHandler(w http.ResponseWriter, r *htt
 	switch returnAcceptType {
 	case "text/html":
 		loginDestination := getLoginDestination(r)
+		eventNotifier.PublishWebLoginEvent(authUser)
 		http.Redirect(w, r, loginDestination, 302)
 	default:
 		loginResponse := proto.LoginResponse{Message: "success"}
